@@ -62,6 +62,13 @@ func runErrCodec(s gens.ErrSpec) (r pbt.Result) {
 		r.Label("depth_2plus")
 		r.NonTrivial = true
 	}
+	for _, l := range s.Layers {
+		if l == 6 && s.OuterCode != 0 && s.HasCode && s.OuterCode != s.Code {
+			r.Label("recoded_further_out")
+			r.NonTrivial = true
+			break
+		}
+	}
 	if s.HasCode && s.Code >= 1<<32 {
 		r.Label("code_ge_2_32")
 		r.NonTrivial = true
@@ -84,7 +91,7 @@ func runErrCodec(s gens.ErrSpec) (r pbt.Result) {
 	if !fixed {
 		r.Label("code_dontcare")
 	}
-	r.Key = fmt.Sprintf("%x/%v/%d/%v/%s", s.Msg, s.HasCode, s.Code, s.Layers, s.Odd)
+	r.Key = fmt.Sprintf("%x/%v/%d/%v/%d/%s", s.Msg, s.HasCode, s.Code, s.Layers, s.OuterCode, s.Odd)
 	return
 }
 
